@@ -56,8 +56,18 @@ STRATEGIES = ["plain", "page_by", "page_by_np", "page_by_np_first", "subline", "
 def gen_spec(rng, *, strategy=None, n=None, nrow=None, header_mode=None, footnote=None, source=None,
              placements=None, long_rows=True, dividers=False, levels=None, title=None, subline=None,
              page_headers=None, nulls=0.0, geometry=None, pageby_header=None, font=None, size=None, collide=False,
-             numeric_keys=False, ndata=None):
-    """Returns (spec, info). info carries what the oracles need (keys, displayed columns, …)."""
+             numeric_keys=False, ndata=None, group_by=None, sublevels=1, subline_dividers=False):
+    """Returns (spec, info). info carries what the oracles need (keys, displayed columns, …).
+
+    Strategies `subline_page_by_np` / `subline_page_by_np_first` (not in STRATEGIES: drawn only on request) are
+    subline_by + page_by with new_page=True and pageby_row 'column' / 'first_row'.
+    `group_by` adds RTFBody(group_by=…) to the SAME body (None = no group_by):
+      'key' / 'key2'  one / two extra displayed key columns COLG0 (COLG1) whose values GB… repeat in contiguous runs
+                      (runs independent of the page_by / subline_by groups: they straddle group changes and page breaks)
+      'data'          one or two of the data columns (every cell distinct: nothing is blanked)
+      'page_by_col'   the page_by columns, where they stay in the table (new_page + pageby_row='column', no subline_by;
+                      else = 'key')
+    `sublevels` = number of subline_by columns; `subline_dividers` turns whole subline_by runs into '-----' groups."""
     strategy = strategy or rng.choice(STRATEGIES + ["plain"])
     n = rng.randint(0, 40) if n is None else n
     ndata = rng.randint(1, 4) if ndata is None else ndata
@@ -67,11 +77,13 @@ def gen_spec(rng, *, strategy=None, n=None, nrow=None, header_mode=None, footnot
         page_by = [f"PB{l}" for l in range(nlev)]
     elif strategy == "subline":
         subline_by = ["SL0"]
-    elif strategy == "subline_page_by":
+    elif strategy in ("subline_page_by", "subline_page_by_np", "subline_page_by_np_first"):
         subline_by = ["SL0"]
         page_by = [f"PB{l}" for l in range(levels or rng.choice([1, 2]))]
-    new_page = strategy in ("page_by_np", "page_by_np_first")
-    pageby_row = "first_row" if strategy == "page_by_np_first" else "column"
+    if subline_by and sublevels > 1:
+        subline_by = [f"SL{l}" for l in range(sublevels)]
+    new_page = strategy in ("page_by_np", "page_by_np_first", "subline_page_by_np", "subline_page_by_np_first")
+    pageby_row = "first_row" if strategy.endswith("_np_first") else "column"
     nrow = nrow or rng.randint(2, 30)
 
     # hierarchical keys as runs
@@ -93,7 +105,7 @@ def gen_spec(rng, *, strategy=None, n=None, nrow=None, header_mode=None, footnot
                     j += 1
                 vals += docgen.run_keys(rng, j - i, alpha, 1, max(1, nrow // 2))
                 i = j
-        if dividers and kc.startswith("PB") and n:
+        if ((dividers and kc.startswith("PB")) or (subline_dividers and kc.startswith("SL"))) and n:
             # turn some whole runs into divider groups
             i = 0
             while i < n:
@@ -143,7 +155,33 @@ def gen_spec(rng, *, strategy=None, n=None, nrow=None, header_mode=None, footnot
             keyvals[kc] = [conv(code[v]) for v in keyvals[kc]]
 
     datacols = [f"COL{j}" for j in range(ndata)]
-    all_cols = hier + datacols
+    gb_cols, gb_vals, group_cols = [], {}, None
+    if group_by == "page_by_col" and (subline_by or not (page_by and new_page and pageby_row == "column")):
+        group_by = "key"       # (under subline_by the page_by values recur in later subline groups: refused by design)
+    if group_by in ("key", "key2"):
+        # contiguous runs of values that never recur (group_by refuses a value that comes back later); the inner
+        # level restarts its alphabet under every outer value
+        gb_cols = ["COLG0", "COLG1"][: 1 if group_by == "key" else 2]
+        i, r = 0, 0
+        gb_vals = {c: [] for c in gb_cols}
+        while i < n:
+            ln = min(n - i, rng.choice([1, 1, 2, 3, 4, max(2, nrow)]))
+            gb_vals["COLG0"] += [f"GB{'abcdefgh'[r % 8]}{r}"] * ln
+            if len(gb_cols) == 2:
+                j, q = 0, 0
+                while j < ln:
+                    m = min(ln - j, rng.randint(1, 3))
+                    gb_vals["COLG1"] += [f"GC{'xyz'[q % 3]}{q}"] * m
+                    j += m
+                    q += 1
+            i += ln
+            r += 1
+        group_cols = list(gb_cols)
+    elif group_by == "data":
+        group_cols = datacols[: rng.randint(1, min(2, ndata))]
+    elif group_by == "page_by_col":
+        group_cols = page_by[: rng.randint(1, len(page_by))]
+    all_cols = hier + gb_cols + datacols
     removed = set(subline_by or [])
     if page_by and (not new_page or pageby_row != "column"):
         removed |= set(page_by)
@@ -161,7 +199,7 @@ def gen_spec(rng, *, strategy=None, n=None, nrow=None, header_mode=None, footnot
 
     rows, lines = [], []
     for i in range(n):
-        row = [keyvals[kc][i] for kc in hier]
+        row = [keyvals[kc][i] for kc in hier] + [gb_vals[c][i] for c in gb_cols]
         k = 1
         if long_rows:
             r = rng.random()
@@ -194,6 +232,8 @@ def gen_spec(rng, *, strategy=None, n=None, nrow=None, header_mode=None, footnot
         body.update(page_by=page_by, new_page=new_page, pageby_row=pageby_row)
     if subline_by:
         body["subline_by"] = subline_by
+    if group_cols:
+        body["group_by"] = group_cols
     ph = rng.random() < 0.5 if pageby_header is None else pageby_header
     body["pageby_header"] = ph
     if font is not None:
@@ -220,7 +260,7 @@ def gen_spec(rng, *, strategy=None, n=None, nrow=None, header_mode=None, footnot
                 footnote=fspec, source=sspec,
                 page_header=dict(text="PGHDR") if has_ph else None,
                 page_footer=dict(text="PGFTR") if has_ph else None)
-    info = dict(numeric_keys=numeric, strategy=strategy, n=n, ndata=ndata, hier=hier, page_by=page_by, subline_by=subline_by,
+    info = dict(numeric_keys=numeric, strategy=strategy, group_by=group_cols, group_kind=group_by, n=n, ndata=ndata, hier=hier, page_by=page_by, subline_by=subline_by,
                 displayed=displayed, removed=sorted(removed), col_total=col_total, header_mode=header_mode,
                 footnote=fk, source=sk, placements=[pt, pf, ps], new_page=new_page, pageby_row=pageby_row,
                 pageby_header=ph, has_title=has_title, has_subline_txt=has_subl, nrow=nrow, font=font or 1,
